@@ -171,9 +171,7 @@ def run(ctx):
     ast_sha = canonical_sha_ast(build["tables"])
     ctx.coverage["translator_round_trip"] = {"ast_sha": ast_sha, "imported_sha": dump["dump_sha"], "equal": ast_sha == dump["dump_sha"]}
     ctx.add_cases(1, 1)
-    if ast_sha != dump["dump_sha"]:
-        ctx.violation({"kind": "translator-round-trip-differs", "broken": "tables as read with ast differ from the tables matid imports",
-                       "ast_sha": ast_sha, "imported_sha": dump["dump_sha"]}, found_input=False)
+    round_trip_differs = ast_sha != dump["dump_sha"]
     # (b) independent evaluation of the predicates on the imported tables
     allex = [[sg, l, i] for sg in range(1, 231) for l in wyck[sg] if l != "translations" for i in range(len(wyck[sg][l]["expressions"]))]
     allorb = [[sg, l] for sg in range(1, 231) for l in wyck[sg] if l != "translations"]
@@ -207,7 +205,22 @@ def run(ctx):
                 disagree.append(["norms", sg, k, v])
     ctx.add_cases(n_eval, n_eval, [{"predicate": "expr", "coordinate": allex[0]}, {"predicate": "norm", "coordinate": allnorm[-1]}])
     ctx.coverage["predicate_agreement"] = {"evaluated": n_eval, "disagreements": disagree[:20]}
-    if disagree:
+    # an entry on which the property's predicate FAILS on the tables matid actually imports although the source text passes
+    # the Coq checkers (tables rewritten at import time): a failing table coordinate of the running library
+    imported_bad = [d for d in disagree if isinstance(d[-1], dict) and d[-1].get("ok") is False]
+    if imported_bad:
+        d = imported_bad[0]
+        coord = {"table": d[0], "sg": d[1]}
+        coord.update({"letter": d[2], "expression": d[3]} if d[0] == "exprs" else ({"letter": d[2]} if d[0] == "orbits" else {"normalizer": d[2]}))
+        ctx.violation({"kind": "imported-table-entry-violates-property", "coordinate": coord, "detail": d[-1],
+                       "how": "import matid.data.symmetry_data and evaluate the C14 predicate (expression string = matrix/constant; closed orbit; normalizer "
+                              "clauses) on the entry as held by the running library: it fails, although the literal in the source file satisfies it",
+                       "others": [x[:4] for x in imported_bad[1:12]], "ast_sha": ast_sha, "imported_sha": dump["dump_sha"]}, found_input=True)
+    elif round_trip_differs:
+        ctx.violation({"kind": "translator-round-trip-differs", "broken": "tables as read with ast differ from the tables matid imports",
+                       "ast_sha": ast_sha, "imported_sha": dump["dump_sha"],
+                       "searched": "the C14 predicates hold on every entry of the tables as imported"}, found_input=False)
+    elif disagree:
         ctx.violation({"kind": "coq-checker-vs-python-predicate-disagree", "broken": "correspondence: Reflect checkers vs independent predicates on the imported tables",
                        "cases": disagree[:20]}, found_input=False)
     # (c) analyzer lookups on one crystal per group, compared inside Coq with the proved values
@@ -220,6 +233,21 @@ def run(ctx):
             crystals.append({"id": sg, "crystal": cr})
     outs = C.impl_run_parallel("c14_impl", [{"info": crystals[i::C.NCPU], "use_then_dump": True} for i in range(C.NCPU)])
     rows = [r for o in outs for r in o["info"]]
+    # one analyzer object reused through set_system: same labels as a fresh analyzer
+    stale = [r for r in rows if "reused" in r and "error" not in r and any(r["reused"].get(k) != r.get(k) for k in ("number", "system", "bravais", "pointgroup"))]
+    ctx.coverage["analyzer_reuse_labels"] = {"checked": sum(1 for r in rows if "reused" in r), "differences": stale[:5]}
+    if stale:
+        r0 = stale[0]
+        prev = None
+        for o in outs:
+            ids = [x["id"] for x in o["info"]]
+            if r0["id"] in ids and ids.index(r0["id"]) > 0:
+                prev = ids[ids.index(r0["id"]) - 1]
+        byid = {c["id"]: c for c in crystals}
+        ctx.violation({"kind": "labels-depend-on-analyzer-history", "history": "a = SymmetryAnalyzer(previous_crystal); a.get_crystal_system() ...; a.set_system(crystal): "
+                       "crystal system / Bravais lattice / point group / number differ from a fresh analyzer's", "crystal": byid[r0["id"]]["crystal"], "sg": r0["id"],
+                       "previous_crystal": byid[prev]["crystal"] if prev in byid else None, "fresh": {k: r0.get(k) for k in ("number", "system", "bravais", "pointgroup")},
+                       "reused": r0["reused"]}, found_input=True)
     # the tables as imported must still be the translated tables after the library was used on these crystals
     changed = sorted({k for o in outs for k in o.get("tables_changed_by_use", [])})
     ctx.coverage["tables_unchanged_by_use"] = {"processes": len(outs), "entries_changed": changed[:20]}
@@ -312,6 +340,28 @@ def replay(ctx, rep):
             ctx.violation(rep, found_input=True)
         else:
             print("replay: the table coordinate satisfies the predicate now")
+    elif rep.get("kind") == "imported-table-entry-violates-property":
+        co = rep["coordinate"]
+        req = {"exprs": [], "orbits": [], "norms": []}
+        if co["table"] == "exprs":
+            req["exprs"].append([co["sg"], co["letter"], co["expression"]])
+        elif co["table"] == "orbits":
+            req["orbits"].append([co["sg"], co["letter"]])
+        else:
+            req["norms"].append([co["sg"], co["normalizer"]])
+        pr = C.impl_run("c14_impl", {"predicates": req})["predicates"]
+        bad = any(not x[-1]["ok"] for x in pr["exprs"] + pr["orbits"] + pr["norms"])
+        if bad:
+            ctx.violation(rep, found_input=True)
+        else:
+            print("replay: the imported table entry satisfies the predicate now")
+    elif rep.get("kind") == "labels-depend-on-analyzer-history":
+        cs = ([{"id": -1, "crystal": rep["previous_crystal"]}] if rep.get("previous_crystal") else []) + [{"id": rep["sg"], "crystal": rep["crystal"]}]
+        o = C.impl_run("c14_impl", {"info": cs})["info"][-1]
+        if "reused" in o and any(o["reused"].get(k) != o.get(k) for k in ("number", "system", "bravais", "pointgroup")):
+            ctx.violation(rep, found_input=True)
+        else:
+            print("replay: the reused analyzer answers like a fresh one now")
     elif rep.get("kind") == "tables-modified-at-run-time":
         o = C.impl_run("c14_impl", {"info": rep["crystals"], "use_then_dump": True})
         if o.get("tables_changed_by_use"):
